@@ -25,10 +25,11 @@ def op_key(op):
     return json.dumps(op, sort_keys=True, ensure_ascii=False)
 
 
-def norm_text(s):
+def norm_text(s, keep_addr=False):
     """The two deliberate, narrow relaxations of DESIGN §3.4: memory addresses inside messages and
     id()-derived temporary table aliases are renamed by first occurrence."""
-    s = _ADDR.sub('0xADDR', s)
+    if not keep_addr:
+        s = _ADDR.sub('0xADDR', s)
     seen = {}
 
     def rep(m):
@@ -40,7 +41,13 @@ def norm_text(s):
 
 
 def exc_obs(e):
-    return norm_text('err: %s: %s' % (type(e).__name__, e))
+    msg = 'err: %s: %s' % (type(e).__name__, e)
+    if (type(e).__module__ or '').startswith('mindsdb_sql'):
+        # the library's own exceptions (ParsingException, PlanningException, RenderError): the message is part of the
+        # result as it stands; a memory address in it is a dependence on what else happened in the process.  Addresses are
+        # only masked in messages of third-party exceptions (SQLAlchemy) that merely pass through.
+        return norm_text(msg, keep_addr=True)
+    return norm_text(msg)
 
 
 def dump_value(v, depth=0):
@@ -159,6 +166,8 @@ class Env:
         """rd is one of the renderer's dialect names, or 'cls:<name>' = the SQLAlchemy dialect *class* handed to the
         constructor (the other accepted form)."""
         from mindsdb_sql.render.sqlalchemy_render import SqlalchemyRender
+        if rd == 'cls:custom_pg':
+            return SqlalchemyRender(custom_pg_dialect())
         if rd.startswith('cls:'):
             import importlib
             return SqlalchemyRender(importlib.import_module('sqlalchemy.dialects.' + rd[4:]).dialect)
@@ -178,6 +187,32 @@ class Env:
         if self.rnd_mode != 'op':
             for rd in dialects:
                 self.renderer(rd)
+
+
+_CUSTOM = {}
+
+
+def custom_pg_dialect():
+    """A caller-defined dialect: subclass of the stock PostgreSQL dialect (same .name) whose compiler writes
+    FETCH FIRST n ROWS ONLY instead of LIMIT n."""
+    if 'pg' not in _CUSTOM:
+        from sqlalchemy.dialects import postgresql
+
+        class FetchFirstCompiler(postgresql.dialect.statement_compiler):
+            def limit_clause(self, select, **kw):
+                text = ''
+                if select._limit_clause is not None:
+                    text += ' \n FETCH FIRST ' + self.process(select._limit_clause, **kw) + ' ROWS ONLY'
+                if select._offset_clause is not None:
+                    text += ' OFFSET ' + self.process(select._offset_clause, **kw)
+                return text
+
+        class FetchFirstPG(postgresql.dialect):
+            statement_compiler = FetchFirstCompiler
+            supports_statement_cache = False
+
+        _CUSTOM['pg'] = FetchFirstPG
+    return _CUSTOM['pg']
 
 
 def build_tree(name):
